@@ -289,7 +289,9 @@ def deferred(chk, F, T, rid="R-DEFER"):
     # ... or a parse that gives up leaves nothing behind: every parsing entry point drops the operands pushed beyond the
     # depth it noted before utap_parse() (scopes.entry_restores on the operand stack)
     from .scopes import entry_restores
-    entries = [f for f in F.fns("parse_XTA") if any(c.get("k") == "call" and c.get("name") == "utap_parse" for c in walk(f["body"]))]
+    entries = [f for f in F.functions.values() if f.get("body") is not None and f.get("name") != "utap_parse" and
+               (f.get("file") or "").endswith(("parser.y", "parser.cpp")) and
+               any(c.get("k") == "call" and c.get("name") == "utap_parse" for c in walk(f["body"]))]
     drops = bool(entries) and all(entry_restores(F, f, "fragments") is not None for f in entries)
     # ... where `fails` includes the texts the grammar recovers in (`(3 + )`: utap_parse() returns 0, but the error
     # production and the abandoned operand are both on the stack): the verdict of the entry point consults the parser's
